@@ -69,6 +69,7 @@ class Kernel(object):
         self.main = threading.Semaphore(0)
         self.sched = []            # (task, op) at scheduling points (for the history signature)
         self.quiescent = None      # optional callable: True when the rig considers the run finished
+        self._running = False
         self.counters = {}
 
     # -- setup ------------------------------------------------------------
@@ -92,6 +93,10 @@ class Kernel(object):
         """Freeze ``task`` for ``dur_us`` when it makes its nth seam call ``op``
         (descheduled at that program point, between two seams of one loop pass)."""
         task.op_stalls[(op, int(nth))] = int(dur_us)
+
+    def spawned_pending(self):
+        """True while a thread spawned by the code under test has not finished."""
+        return any((t.fn is None and not t.done) for t in self.tasks)
 
     def count(self, key, n=1):
         self.counters[key] = self.counters.get(key, 0) + n
@@ -125,18 +130,64 @@ class Kernel(object):
         self.cur = nxt
         nxt.sem.release()
 
+    def _adopt_thread_start(self, orig_start):
+        """Threads started by the code under test become kernel tasks: the new
+        thread waits for the baton before it runs a single line, so the kernel
+        (not the OS) decides its interleaving with everybody else."""
+        kernel = self
+
+        def start(thread_self, *a, **k):
+            cur = kernel.cur
+            if (kernel._running and cur is not None and threading.current_thread() is cur.thread
+                    and not getattr(thread_self, "_pmsim_owned", False)):
+                kernel.count("probe.thread_spawned_by_code_under_test")
+                task = Task(kernel, "spawned%d" % len(kernel.tasks), None, len(kernel.tasks))
+                task.thread = thread_self
+                task.started = True
+                kernel.tasks.append(task)
+                orig_run = thread_self.run
+
+                def run_under_kernel():
+                    task.sem.acquire()
+                    try:
+                        if not kernel.stopping:
+                            orig_run()
+                    except SimExit:
+                        pass
+                    except BaseException as e:
+                        task.crash = e
+                    finally:
+                        task.done = True
+                        task.wait = None
+                        kernel._leave(task)
+
+                thread_self.run = run_under_kernel
+                kernel.log.add("spawn", kernel.now_us, cur.name, task.name)
+            return orig_start(thread_self, *a, **k)
+
+        return start
+
     def run(self):
+        orig_start = threading.Thread.start
         for t in self.tasks:
             t.thread = threading.Thread(target=self._thread_main, args=(t,), name="pmsim-" + t.name, daemon=True)
+            t.thread._pmsim_owned = True
             t.thread.start()
         first = self._choose(None)
         if first is None:
             return
-        self.cur = first
-        first.sem.release()
-        self.main.acquire()
+        self._running = True
+        threading.Thread.start = self._adopt_thread_start(orig_start)
+        try:
+            self.cur = first
+            first.sem.release()
+            self.main.acquire()
+        finally:
+            threading.Thread.start = orig_start
+            self._running = False
         for t in self.tasks:
-            t.thread.join(timeout=30)
+            if t.thread is not None:
+                t.thread.join(timeout=30)
 
     def _begin_stop(self, reason):
         if not self.stopping:
@@ -201,6 +252,10 @@ class Kernel(object):
         holds the baton).  Returns True if ``cond`` holds on resumption, False
         on time-out."""
         t = self.cur
+        if t is None or threading.current_thread() is not t.thread:
+            # a thread the kernel does not know reached a seam: it cannot be
+            # scheduled deterministically
+            raise RuntimeError("pmsim: seam %r called from a thread outside the kernel's control" % (op,))
         if self.stopping:
             raise SimExit()
         self.steps += 1
